@@ -409,10 +409,10 @@ fn through_client(_w: &World, c: &Case, verdict: &Verdict, case: &Value) -> Vec<
                         user: webauthn::PublicKeyCredentialUserEntity { id: vec![9, 9].into(), name: "u".into(), display_name: "U".into() },
                         challenge: vec![1, 2, 3, 4].into(),
                         pub_key_cred_params: vec![es256_param()],
-                        timeout: None,
+                        timeout: ambient_timeout(),
                         exclude_credentials: None,
                         authenticator_selection: None,
-                        hints: None,
+                        hints: ambient_hints(),
                         attestation: Default::default(),
                         attestation_formats: None,
                         extensions: None,
@@ -423,11 +423,11 @@ fn through_client(_w: &World, c: &Case, verdict: &Verdict, case: &Value) -> Vec<
                 let opts = webauthn::CredentialRequestOptions {
                     public_key: webauthn::PublicKeyCredentialRequestOptions {
                         challenge: vec![1, 2, 3, 4].into(),
-                        timeout: None,
+                        timeout: ambient_timeout(),
                         rp_id: c.rp.clone(),
                         allow_credentials: None,
                         user_verification: Default::default(),
-                        hints: None,
+                        hints: ambient_hints(),
                         attestation: Default::default(),
                         attestation_formats: None,
                         extensions: None,
